@@ -81,6 +81,7 @@ func main() {
 	hashes := flag.String("hashes", "", "file receiving the trace hashes of nontrivial runs")
 	maxViol := flag.Int("maxviol", 2, "stop after this many violations")
 	logRuns := flag.String("eventlog", "", "determinism self-test: write one line per run (hash, steps, choices) to this file")
+	siteDump := flag.String("sitedump", "", "write 'file:line hits' for every statement site to this file (coverage report)")
 	deep := flag.Bool("deep", false, "thorough tier: worlds use wider bounds")
 	noShrink := flag.Bool("noshrink", false, "do not shrink or confirm violations (determinism self-test)")
 	flag.Parse()
@@ -217,6 +218,15 @@ func main() {
 			st.SitesHit[f.File] = hit
 			st.SitesTotal[f.File] = f.To - f.From
 		}
+	}
+	if *siteDump != "" {
+		var sb []byte
+		for _, f := range zsim.SiteFiles {
+			for i := f.From; i < f.To; i++ {
+				sb = append(sb, fmt.Sprintf("%s:%d %d\n", f.File, zsim.SiteLines[i], zsim.SiteHits[i])...)
+			}
+		}
+		os.WriteFile(*siteDump, sb, 0o644)
 	}
 	if *hashes != "" {
 		hs := make([]uint64, 0, len(hashSet))
